@@ -361,7 +361,14 @@ class BuiltinMixin:
         return self.getattr(args[0], args[1].const.v, st, node)
 
     def bi_hasattr(self, args, kwargs, st, node):
-        raise EngineError("hasattr is not modelled")
+        """hasattr(obj, "name") on an object whose class declares the ghost flag `g_has_<name>` (a bool field)."""
+        v, n = args
+        if n.const is None or not isinstance(n.const.v, str) or not isinstance(v.t, TRef):
+            raise EngineError("hasattr is only modelled for a literal name on an object with a declared g_has_<name> flag")
+        fd = self.field_decl(v.t.cls, f"g_has_{n.const.v}")
+        if fd is None:
+            raise EngineError(f"hasattr({v.t.cls}, {n.const.v!r}): no g_has_{n.const.v} flag declared")
+        return st.load(v.z, fd[0], fd[1])
 
     def bi_callable(self, args, kwargs, st, node):
         raise EngineError("callable is not modelled")
